@@ -275,8 +275,8 @@ impl VirtualSign<'_> {
     fn send_data<'a>(&mut self, offset: Offset, data: &[u8]) -> Option<Message<'a>> {
         if self.state == State::ConfigInProgress && offset == Offset(0) && data.len() == 16 {
             let (kind, width, height) = match data[0] {
-                0x04 => ("Max3000", data[5..9].iter().sum(), data[4]),
-                0x08 => ("Horizon", data[7], data[5]),
+                0x04 => ("Max3000", data[5..9].iter().map(|&w| u32::from(w)).sum(), data[4]),
+                0x08 => ("Horizon", u32::from(data[7]), data[5]),
                 _ => return None,
             };
 
@@ -291,7 +291,7 @@ impl VirtualSign<'_> {
                 None => warn!("Please report unknown configuration {:?}", data),
             }
 
-            self.width = u32::from(width);
+            self.width = width;
             self.height = u32::from(height);
             self.data_chunks += 1;
         } else if self.state == State::PixelsInProgress {
